@@ -3,7 +3,7 @@
 From Coq Require Import String.
 From Coq Require Import List Arith ZArith.
 Import ListNotations.
-From YP Require Import Base.Str Term.Term Unify.Unify Unify.Mgu Unify.Rename Unify.Base Unify.UnifyGen Unify.LateStart Unify.RunUnifySched.
+From YP Require Import Base.Str Term.Term Unify.Unify Unify.Mgu Unify.Rename Unify.Base Unify.UnifyGen Unify.LateStart Unify.RunUnifySched Unify.SchedSpec.
 
 (* "started under any stack of already active bindings" = any acyclic store s (wf s);
    "at the yield both terms dereference to the same term": den s' t1 = den s' t2 where
@@ -182,6 +182,49 @@ Theorem C02_run_events_is_generator_model : forall fuel evs nvars,
   run_events_x fuel evs nvars = run_events fuel evs nvars.
 Proof. exact run_events_x_eq. Qed.
 Print Assumptions C02_run_events_is_generator_model.
+
+(* ---- the schedule theorem ----------------------------------------------------------------------
+   exec = the event runner on generator objects (the call unify(..) = mk_unify, __next__ = next, close()/drop =
+   close, any number of objects, events in any order); srun = the SPECIFICATION of the same events by the
+   store-passing algorithm alone (Unify/SchedSpec.v): a stack of active unifications, starting an object =
+   Unify.unify under the bindings of THAT moment on the two terms as dereferenced at the call, exhausting /
+   closing the top one = back to the bindings before its start; undefined outside the property's domain (a
+   start needing a cyclic term, an active generator used out of stack order, next on an object closed before
+   it was started).  Wherever the specification is defined, the generator objects - with whatever fuel they
+   return a value - yield exactly when it says, and the bindings after EVERY event are its bindings. *)
+Theorem C02_sched_refines : forall n m evs tr tr',
+  srun n [] [] [] evs = Some tr -> exec m [] [] evs = Some tr' -> tr' = tr_of tr.
+Proof. exact sched_refines. Qed.
+Print Assumptions C02_sched_refines.
+
+(* after every event of the specification the bindings are acyclic, equate the two sides of every ACTIVE
+   unification, and every substitution unifying the active equations is an instance of them: a most general
+   unifier of the equations of the active unifications, nothing bound that need not be *)
+Theorem C02_srun_mgu : forall n evs tr, srun n [] [] [] evs = Some tr ->
+  Forall (fun x => let h := snd (fst x) in let eqs := snd x in
+            wf h /\ (forall a b, In (a, b) eqs -> den h a = den h b) /\
+            (forall th, unifies th eqs -> sat th h)) tr.
+Proof. exact srun_mgu. Qed.
+Print Assumptions C02_srun_mgu.
+
+(* what the check's model evaluation prints for an event sequence (when it does not cut the case at a
+   cyclic binding) is the specification's trace *)
+Theorem C02_run_events_spec : forall fuel n nvars evs l tr,
+  run_events fuel evs nvars = otag "ok" [OL l] -> existsb is_cyc l = false ->
+  srun n [] [] [] evs = Some tr -> l = show_tr nvars (tr_of tr).
+Proof. exact run_events_spec. Qed.
+Print Assumptions C02_run_events_spec.
+
+Example C02_sched_nonvacuous :
+  let evs := [SCreate 0 (TVar 0) (TVar 1); SCreate 1 (TVar 1) (TVar 0); SNext 1; SNext 0; SClose 0; SClose 1] in
+  srun 5 [] [] [] evs = Some
+    [(false, [], []); (false, [], []);
+     (true, [(1, TVar 0)], [(TVar 1, TVar 0)]);
+     (true, [(1, TVar 0)], [(TVar 1, TVar 0); (TVar 0, TVar 1)]);
+     (false, [(1, TVar 0)], [(TVar 1, TVar 0)]);
+     (false, [], [])]
+  /\ exec 5 [] [] evs = Some [(false, []); (false, []); (true, [(1, TVar 0)]); (true, [(1, TVar 0)]); (false, [(1, TVar 0)]); (false, [])].
+Proof. exact srun_late_alias. Qed.
 
 (* non-vacuity of the late-start theorems: unify(X,Y) created under no binding and started after Y was
    aliased to X (directly / through a chain) yields and binds nothing; started after X = f(Z), it binds Y *)
